@@ -34,6 +34,8 @@ Mutants (checks/mutants/C06/*.diff; `cp -r /repo /tmp/zone-x && git -C /tmp/zone
 VERIF_REPO=/tmp/zone-x bin/check C06 quick` -> exit 1, seed 1):
   generate-ignores-inherited-ttl  re-introduces the defect repaired in /repo 4d32f83 ($GENERATE sub-parser starts at 3600)
                                                                                 GEN seq/idx + TV   zone/generate:ttl:$TTL, :last, :default
+  comment-resets-rrtype        reverse of /repo 1ffb8b0: a comment inside parentheses resets "type seen"   GEN quirk case + TV follow (paren-comment)
+                                                                                zone/rejects:rr:mnemonic-token, zone/newrr:NSEC:paren-comment, zone/rr:follow:NSEC:paren-comment ...
   ipseckey-slurp-remainder     reverse of /repo f5422ab: IPSECKEY reads into the next line       TV follow   zone/rr:follow:IPSECKEY:<spelling>, zone/readrr:first:IPSECKEY:<spelling>
   cert-slurp-remainder         the same slip in CERT (shows the family is generic)              TV follow   zone/rr:follow:CERT:<spelling>, zone/readrr:first:CERT:<spelling>
   ttl-directive-not-sticky     a stated TTL overrides $TTL for later lines      GEN seq/idx + TV   zone/rr:ttl:$TTL, zone/include:ttl:$TTL
@@ -51,6 +53,8 @@ directory) GEN "tree" through MapFS (zone/include:rdata: a decoy file's record) 
 C06-4 (a relative name whose last octet is an escaped dot taken for absolute) GEN seq/idx, shapes 36/40/42 and the special-octet
 labels of record mode (zone/rr:owner, zone/include:owner, zone/generate:owner:plain); C06-5, C06-6 GEN + TV.
 
+C06-11 (include depth counted per $INCLUDE performed, not per nesting level) GEN "file" cases siblings(): 0..10 sibling $INCLUDEs at
+the top level / inside an included file / at depth 2, plus nesting chains (zone/rejects:include).
 C06-8 (owner token cached across $ORIGIN) GEN idx: the family (rr X)(directive)(rr X') of same-spelled owners, canonical / noisy
 spellings (zone/rr:owner); also the owner-repeating bias of the random sequences and of record mode.
 
@@ -154,6 +158,37 @@ def biased(rnd, n):
             last = s
         q.append(s)
     return q
+
+
+def siblings(full):
+    """Sibling $INCLUDEs are not nesting: a file may perform any number of them (0..10 here) at the top level, inside an included
+    file and inside a file included from an included file, next to nesting chains up to and beyond the assumed limit."""
+    def leaf(k):
+        return ("s%d" % k, [rr(ref("rel", "l%d" % k), 5, 1, ip=[10, 1, 0, k])])
+
+    def inc(name):
+        return {"k": "include", "file": B(name), "origin": ref("omit")}
+
+    def body(n, tag):
+        ls = []
+        for k in range(n):
+            ls += [inc("s%d" % k), rr(ref("rel", "%s%d" % (tag, k)), 5, 1, ip=[10, 2, 0, k])]
+        return ls + [rr(ref("rel", tag + "end"), 5, 1, ip=[10, 3, 0, 0])]
+    leaves = [leaf(k) for k in range(10)]
+    cases = []
+    for n in (range(11) if full else (0, 1, 7, 8, 10)):
+        n = min(n, 10)
+        cases.append({"cfg": cfg(leaves), "lines": body(min(n, 10), "t")})                                           # at the top level
+    for n in (range(11) if full else (6, 7, 10)):
+        cases.append({"cfg": cfg(leaves + [("m1", body(n, "m"))]), "lines": [inc("m1"), rr(ref("rel", "after"), 5, 1, ip=[10, 4, 0, 0])]})
+    for n in (range(11) if full else (5, 6, 10)):
+        cases.append({"cfg": cfg(leaves + [("m1", [inc("m2"), rr(ref("rel", "m1end"), 5, 1, ip=[10, 5, 0, 0])]), ("m2", body(n, "n"))]),
+                      "lines": [inc("m1"), inc("s0"), rr(ref("rel", "after"), 5, 1, ip=[10, 4, 0, 0])]})
+    for d in (range(1, 10) if full else (1, 3, 7, 8)):                                                               # nesting chains
+        files = [("c%d" % k, [inc("c%d" % (k + 1)), rr(ref("rel", "c%dend" % k), 5, 1, ip=[10, 6, 0, k])]) for k in range(1, d)]
+        files.append(("c%d" % d, [rr(ref("rel", "leaf"), 5, 1, ip=[10, 6, 0, d])]))
+        cases.append({"cfg": cfg(files + leaves[:3]), "lines": [inc("c1"), inc("s0"), inc("s1"), inc("s2"), rr(ref("rel", "after"), 5, 1, ip=[10, 4, 0, 0])]})
+    return cases
 
 
 def spell_tv(ctx, paths, what="rendering", nchunks=4, cap=None, rnd=None):
@@ -328,7 +363,7 @@ def run(ctx):
             G("idx", 0, 1, [0], cases=idx),                 # seeded random sequences of 4..7 lines
             G("gen", 0, 1, [0]),
             G("tree", 2, 1, [0]),                           # include trees with directories and decoys, FS and os file system
-            G("file", 0, 1, [0], cases=QUIRKS),
+            G("file", 0, 1, [0], cases=QUIRKS + siblings(False)),
         ], maxpar=6)
         vp.parallel([lambda: spell_tv(ctx, spells), lambda: record_tv(ctx, binp, 50, 3, par=3), lambda: follow_tv(ctx, binp)])
     else:
@@ -339,7 +374,7 @@ def run(ctx):
             lambda: ctx.tlc("MC_Zone", consts=dict(MaxLines=2, ShapeSet=ALL_SHAPES, PolSet="{0, 15, 9, 6}"), workers=2, timeout=6000),            # 40 k states
             lambda: ctx.tlc("MC_Zone", consts=dict(MaxLines=6, ShapeSet=ALL_SHAPES, PolSet="{0, 15, 9, 6}"), workers=2, timeout=1800,
                             simulate="num=30", depth=7),        # longer random behaviours
-            G("gen", 0, 1, [0]), G("tree", 3, 1, [0]), G("file", 0, 1, [0], cases=QUIRKS),
+            G("gen", 0, 1, [0]), G("tree", 3, 1, [0]), G("file", 0, 1, [0], cases=QUIRKS + siblings(True)),
         ]
         jobs += [G("seq", 2, 4, [k]) for k in range(4)]
         jobs += [G("seq", 3, 32, [k]) for k in rnd.sample(range(32), 8)]      # 1/4 of the 8 x 42^3
